@@ -1,7 +1,10 @@
 //! Workload generators shared by the monitors: oracle-driven games (G-play), exhaustive small
 //! families (G-enum), FEN mutation (G-mut). All deterministic functions of (seed, index).
+#[cfg(not(feature = "driver_only"))]
 use crate::chess::move_struct::Move;
+#[cfg(not(feature = "driver_only"))]
 use crate::chess::Game;
+#[cfg(not(feature = "driver_only"))]
 use crate::eng;
 use crate::rng::{fnv, Rng};
 use chess_oracle as o;
@@ -233,6 +236,7 @@ pub enum Flow {
 /// Play one oracle-driven game, keeping the engine game in lock-step. The visitor is called at
 /// every position (including the first and the last). If the engine does not offer the move the
 /// oracle chose, the game ends there (the C01 monitor reports that when it is switched on).
+#[cfg(not(feature = "driver_only"))]
 pub fn play(
     spec: &GameSpec,
     mut visit: impl FnMut(&mut Game, &Step) -> Flow,
@@ -287,6 +291,7 @@ pub fn play(
 }
 
 /// Engine move for an oracle move (looked up in the checked list by text).
+#[cfg(not(feature = "driver_only"))]
 pub fn engine_move(g: &mut Game, m: &Mv) -> Option<Move> {
     eng::find(g, &m.uci())
 }
